@@ -1162,6 +1162,17 @@ pub struct CellsSync(pub [loom::cell::UnsafeCell<u64>; 2]);
 unsafe impl Sync for CellsSync {}
 unsafe impl Send for CellsSync {}
 
+/// The owner of the cell has a destructor that uses the cell (a container that drains itself in `Drop`): when the
+/// access panics (a causality violation detected by loom), the destructor runs during the unwind.
+struct TouchOnUnwind<'a>(&'a loom::cell::UnsafeCell<u64>);
+impl Drop for TouchOnUnwind<'_> {
+    fn drop(&mut self) {
+        if std::thread::panicking() {
+            self.0.with_mut(|p| unsafe { std::ptr::write_volatile(p, 2) });
+        }
+    }
+}
+
 struct LockOnDrop<'a>(&'a loom::sync::Mutex<i64>);
 impl Drop for LockOnDrop<'_> {
     fn drop(&mut self) {
@@ -1338,8 +1349,12 @@ fn exec(p: &SProg, t: usize, o: &Objs, rx: Option<&loom::sync::mpsc::Receiver<u8
             }
             SOp::NWait => o.notify.wait(),
             SOp::NNotify => o.notify.notify(),
-            SOp::CellW(c) => o.cells.0[c as usize].with_mut(|p| unsafe { std::ptr::write_volatile(p, 1) }),
+            SOp::CellW(c) => {
+                let _t = TouchOnUnwind(&o.cells.0[c as usize]);
+                o.cells.0[c as usize].with_mut(|p| unsafe { std::ptr::write_volatile(p, 1) })
+            }
             SOp::CellR(c) => {
+                let _t = TouchOnUnwind(&o.cells.0[c as usize]);
                 o.cells.0[c as usize].with(|p| unsafe { std::ptr::read_volatile(p) });
             }
             SOp::Fail(id) => panic!("{}{}", USER_PANIC_PREFIX, id),
